@@ -11,17 +11,17 @@ import DnsVerif.Proofs.LpmStore
 namespace DnsVerif.Lpm
 open DnsVerif DnsVerif.Rearr DnsVerif.Spec DnsVerif.Loc DnsVerif.Codec
 
-theorem famOf_loc_len {S : List SubnetDecl} (h : SubsWF S) :
-    ∀ R ∈ famOf S, ∀ l, R.loc = some l → l.length = 2 := by
+theorem famF_loc_len {S : List SubnetDecl} (h : SubsWF S) :
+    ∀ R ∈ famF S, ∀ l, R.loc = some l → l.length = 2 := by
   intro R hR l hl
-  rcases (mem_famOf h).1 hR with ⟨s, hs, rfl⟩ | ⟨s, hs, _, rfl⟩ | ⟨rfl, _⟩ | ⟨rfl | rfl, _⟩
+  rcases (mem_famF h).1 hR with ⟨s, hs, rfl⟩ | ⟨⟨s, hs, _, rfl⟩, _⟩ | ⟨rfl, _⟩ | ⟨rfl, _⟩ | ⟨rfl, _, _⟩
   · simp only [blk, Option.some.injEq] at hl; rw [← hl]; exact h.loc_len s hs
   · simp only [half, Option.some.injEq] at hl; rw [← hl]; exact h.loc_len s hs
   · cases hl
   · cases hl
   · cases hl
 
-/-- **rearrange_lpm, table form**: for the subnets of one map satisfying W0, W1, W3, `Rearrange()`
+/-- **rearrange_lpm, table form**: for the subnets of one map satisfying W0 and W1, `Rearrange()`
 succeeds, its table is well formed (in particular: pairwise distinct database keys), and the
 predecessor of `(a, req)` carries exactly the answer of `Spec.lpm` — for every address `a < 2^128`
 and prefix length `req < 256` such that `a` is masked to `req` -/
@@ -30,31 +30,32 @@ theorem rearrange_table {S : List SubnetDecl} (h : SubsWF S) (hne : S ≠ []) {m
     ∃ P, rearrange (addAll S) = some P ∧ TableWF P ∧
       ∀ a req, a < 2 ^ 128 → req < 256 → a % 2 ^ (128 - req) = 0 →
         lookupRes P a req = lpmRes S m a req := by
-  have hF := famOf_wf h
-  have hM : RngMono (famOf S) := famOf_mono h
-  obtain ⟨GO, hrea, hsorted, hmem, hall⟩ := rearrange_spec hne hF (famOf_noResume h)
+  have hF := famF_wf h
+  have hW := famF_monoW h
+  have hM := markersOf_wf h
+  obtain ⟨GO, hrea, hsorted, hmem, hall⟩ := rearrange_spec h hne
   refine ⟨_, hrea, ?_, ?_⟩
   · have hsub : ∀ p ∈ squash [] (GO.map outPt), ∃ gh ∈ GO, p = outPt gh := by
       intro p hp
       obtain ⟨gh, hgh, rfl⟩ := List.mem_map.1 ((squash_sublist _).subset hp)
       exact ⟨gh, hgh, rfl⟩
-    have hks := table_sorted hF hM hsorted hmem
+    have hks := table_sorted hF hW hM hsorted hmem
     refine ⟨?_, ?_, ?_, ?_, ?_⟩
     · intro p hp
       obtain ⟨gh, hgh, rfl⟩ := hsub p hp
-      exact (outPt_facts hF (hmem gh hgh)).1
+      exact (outPt_facts hF hM (hmem gh hgh)).1
     · intro p hp
       obtain ⟨gh, hgh, rfl⟩ := hsub p hp
-      have := (outPt_facts hF (hmem gh hgh)).2.1
+      have := (outPt_facts hF hM (hmem gh hgh)).2.1
       omega
     · intro p hp l hl
       obtain ⟨gh, hgh, rfl⟩ := hsub p hp
-      obtain ⟨R, hR, hloc, _⟩ := (outPt_facts hF (hmem gh hgh)).2.2.2
-      exact famOf_loc_len h R hR l (hloc ▸ hl)
+      obtain ⟨R, hR, hloc, _⟩ := (outPt_facts hF hM (hmem gh hgh)).2.2.2
+      exact famF_loc_len h R hR l (hloc ▸ hl)
     · refine List.Pairwise.imp ?_ hks
       intro u v huv heq
       rw [heq, keyLt_irrefl] at huv; cases huv
-    · have h0 := sweep_lookup hF hM hsorted hmem hall (a := 0) (req := 0) (by unfold TOP; omega)
+    · have h0 := sweep_lookup hF hW hM hsorted hmem hall (a := 0) (req := 0) (by unfold TOP; omega)
         (by omega) (fun R _ hlt => absurd hlt (Nat.not_lt_zero _))
       obtain ⟨H, _, _, hsome⟩ := h0
       obtain ⟨p, hp⟩ := Option.isSome_iff_exists.1 hsome
@@ -64,12 +65,12 @@ theorem rearrange_table {S : List SubnetDecl} (h : SubsWF S) (hne : S ≠ []) {m
       simp only [Bool.not_eq_true', decide_eq_false_iff_not] at hle
       apply Prod.ext <;> simp only <;> omega
   · intro a req ha hreq hal
-    have hA := align_hA h ha hreq hal
-    obtain ⟨H, hInner, hres, _⟩ := sweep_lookup hF hM hsorted hmem hall (a := a) (req := req)
+    have hA := align_hA h hal
+    obtain ⟨H, hInner, hres, _⟩ := sweep_lookup hF hW hM hsorted hmem hall (a := a) (req := req)
       (by unfold TOP; exact ha) hreq hA
     rw [hres]
     obtain ⟨h1, h2, h3, h4, h5⟩ := hInner
-    exact inner_eq_lpm h hm ha hreq hal h1 h2 h3 h4 h5
+    exact inner_eq_lpm h hm hal h1 h2 h3 h4 h5
 
 /-- the client prefix length the lookups use: `Mask.Size()` + 96 for IPv4 clients, as a byte -/
 def reqOf (c : ClientNet) : Nat := (c.maskOnes + if isIPv4 c then 96 else 0) % 256
